@@ -144,6 +144,32 @@ class InterpR(Interp7):
                     if cs is not None:
                         w = ph.bits
                         edges[bb] = set(c - (1 << w) if c >= (1 << (w - 1)) else c for c in (x % (1 << w) for x in cs))
+                # Edges are joined only with edges that were selected by the same INTEGER decisions (the choice among them
+                # being made by opaque floating-point comparisons alone).  An edge selected by an integer test of its own
+                # - e.g. the clamp `precision > MAX -> MAX` written as one arm of the same if/else chain as the automatic
+                # precision ladder - keeps its exact constant, because that test relates it to the arguments.
+                idom = fn.idom.get(b)
+
+                def int_decisions(bb):
+                    blk = fn.bmap[bb]
+                    sig = []
+                    for p_ in fn.blocks:
+                        t = p_.term
+                        if t.op != 'br' or 'f' not in t.d or t.ops[0].k != 'inst' or fn.insts[t.ops[0].id].op == 'fcmp':
+                            continue
+                        if not (idom is not None and fn.dominates_block(idom, p_) and fn.dominates_block(p_, blk)):
+                            continue
+                        st_, sf_ = fn.bmap[t.d['t']], fn.bmap[t.d['f']]
+                        dt = fn.dominates_block(st_, blk) and st_.preds == [p_]
+                        df = fn.dominates_block(sf_, blk) and sf_.preds == [p_]
+                        if dt != df:
+                            sig.append((p_.name, dt))
+                    return frozenset(sig)
+                groups = {}
+                for bb in edges:
+                    groups.setdefault(int_decisions(bb), []).append(bb)
+                best = max(groups.values(), key=lambda g: len(set().union(*[edges[x] for x in g]))) if groups else []
+                edges = {bb: edges[bb] for bb in best}
                 allc = set().union(*edges.values()) if edges else set()
                 if len(allc) >= 3 and (fn.name, b.name) not in self.joins:
                     dom = set(i.id for d in fn.blocks if d is not b and fn.dominates_block(d, b) for i in d.insts)
